@@ -131,7 +131,7 @@ Proof.
       assert (Hsz : lenN (d_buf d) + lenN s <= sz) by apply grow_enough. clearbody sz.
       destruct (resize_ok d sz Hok) as (R1 & R2 & R3 & R4 & R5 & R6 & R7).
       apply conserves_nowrite; cbn; rewrite ?R1, ?R3, ?R6, ?R7; try reflexivity.
-      unfold ok. cbn. rewrite R1, lenN_app. lia.
+      unfold ok. cbn [set_buf d_buf d_vsize]. rewrite ?R1, lenN_app. lia.
     + apply conserves_nowrite; cbn; try reflexivity. unfold ok. cbn. rewrite lenN_app. lia.
   - destruct (N.leb_spec (lenN (d_buf d) + lenN s) (d_vsize d)) as [Hle|Hgt].
     + apply conserves_nowrite; cbn; try reflexivity. unfold ok. cbn. rewrite lenN_app. lia.
@@ -145,11 +145,13 @@ Proof.
   intros Hok. unfold dev_overflow. set (chb := match ch with Some x => [x] | None => [] end).
   destruct (d_full d).
   - destruct (N.eqb_spec (lenN (d_buf d)) (d_vsize d)) as [E|E].
-    + destruct (resize_ok d (next_size (d_vsize d)) Hok) as (R1 & R2 & R3 & R4 & R5 & R6 & R7).
-      apply conserves_nowrite; cbn; rewrite ?R1, ?R3, ?R6, ?R7; try reflexivity.
-      unfold ok. cbn. rewrite R1, R2, lenN_app.
-      assert (lenN chb <= 1) by (subst chb; destruct ch; cbn; lia).
-      unfold next_size. destruct (N.eqb_spec (d_vsize d) 0); lia.
+    + assert (Hc1 : lenN chb <= 1) by (subst chb; destruct ch; cbn; lia).
+      set (ns := next_size (d_vsize d)).
+      assert (Hns : d_vsize d + 1 <= ns) by (unfold ns, next_size; destruct (N.eqb_spec (d_vsize d) 0); lia).
+      clearbody ns.
+      destruct (resize_ok d ns Hok) as (R1 & R2 & R3 & R4 & R5 & R6 & R7).
+      apply conserves_nowrite; cbn [set_buf d_buf d_async d_final d_eofsent]; rewrite ?R1, ?R3, ?R6, ?R7; try reflexivity.
+      unfold ok. cbn [set_buf d_buf d_vsize]. rewrite ?R1, ?R2, lenN_app. lia.
     + apply conserves_nowrite; cbn; try reflexivity. unfold ok in *. cbn. rewrite lenN_app.
       assert (lenN chb <= 1) by (subst chb; destruct ch; cbn; lia). lia.
   - pose proof (conserves_write_reset d c chb Hok) as H. cbv zeta in H.
@@ -229,7 +231,7 @@ Definition setbuf_safe (d : dev) (size : N) : Prop := d_full d = true -> lenN (d
 Lemma dev_setbuf_spec d c size : ok d -> setbuf_safe d size -> conserves d c (dev_setbuf d c size) [].
 Proof.
   intros Hok Hsafe. unfold dev_setbuf. destruct (d_full d) eqn:Ef; [|now apply basic_setbuf_spec].
-  specialize (Hsafe eq_refl). set (d0 := set_cap d size).
+  specialize (Hsafe Ef). set (d0 := set_cap d size).
   assert (Hok0 : ok d0) by exact Hok.
   set (d1 := if d_vsize d0 <? size then resize d0 size else d0).
   assert (H1 : d_buf d1 = d_buf d /\ ok d1 /\ d_async d1 = d_async d /\ d_final d1 = d_final d /\ d_eofsent d1 = d_eofsent d /\ d_cap d1 = size).
@@ -260,11 +262,10 @@ Lemma dev_close_spec d c : ok d -> d_final d = false -> d_eofsent d = false ->
   d_eofsent (fst r) = true /\ d_final (fst r) = true /\ dev_close (fst r) (snd r) = r.
 Proof.
   intros Hok Hf He. unfold dev_close at 1. rewrite He.
-  set (d0 := set_eof d true (d_eofsent d)).
+  set (d0 := set_eof d true false).
   destruct (dev_flush_spec d0 c Hok) as (A & Hb & Hv & Hc & Hfl & Has & Hfi & Hes & B).
-  cbv zeta. change (d_final d0) with true in *. change (d_eofsent d0) with (d_eofsent d) in *. rewrite He in *.
-  cbn [andb negb] in *. fin; try assumption.
-  unfold dev_close. now rewrite Hes.
+  cbv zeta. change (d_final d0) with true in *. change (d_eofsent d0) with false in *. change (d_buf d0) with (d_buf d) in *.
+  cbn [andb negb] in *. repeat split; try assumption.
 Qed.
 
 (* ---------------------------------------------------------------- device_conservation over operation sequences *)
